@@ -71,5 +71,30 @@ let () = run_lines (fun toks ->
      | "sext" -> h (Model.sextZ k a.(0))
      | "smod_n" -> h (Model.smod_nZ thr k a.(0) a.(1))
      | "sinv_mod" -> h (Model.sinv_modZ thr k a.(0) a.(1))
+     (* native operands, conversions with an explicit previous destination (ModelNative.v) *)
+     | "op_add_si" -> h (Model.op_add_siZ k a.(0) a.(1))
+     | "op_sub2" -> h (Model.op_sub_siZ k a.(0) a.(1)) ^ " " ^ h (Model.op_rsub_siZ k a.(0) a.(1))
+     | "op_mul_si" -> h (Model.op_mul_siZ k a.(0) a.(1))
+     | "op_div_si" -> h (Model.op_div_siZ thr k a.(0) a.(1))
+     | "op_mod_w" -> h (Model.op_mod_wZ thr k a.(0) a.(1))
+     | "sdiv_q_si" -> h (Model.sdiv_q_siZ thr k a.(0) a.(1))
+     | "cmp_n" -> (* signed flag, x, c *)
+         if sz a.(0) = "0" then sz (Model.cmp_wZ k a.(1) a.(2)) ^ " " ^ sz (Model.scmp_wZ k a.(1) a.(2))
+         else sz (Model.cmp_siZ k a.(1) a.(2)) ^ " " ^ sz (Model.scmp_siZ k a.(1) a.(2))
+     | "bit_n" -> String.concat " " [h (Model.op_lor_siZ k a.(0) a.(1)); h (Model.op_lxor_siZ k a.(0) a.(1)); h (Model.op_land_siZ k a.(0) a.(1))]
+     | "ctor_n" -> if sz a.(0) = "0" then h (Model.ctor_uZ k a.(2)) else h (Model.ctor_sZ k a.(2))
+     | "shr2" -> h (Model.shrZ k a.(0) a.(1)) ^ " " ^ h (Model.sshrZ k a.(0) a.(1))
+     | "exp_mod_n" -> h (Model.exp_mod_nZ a.(0) thr k a.(1) a.(2) a.(3))
+     | "cast" -> let ((((u8, u16), (u32, u64)), ((s8, s16), (s32, s64))), b) = Model.castZ k a.(0) in
+         let w x = h (Model.wrap_u (zs "64") x) in
+         String.concat " " [h u8; h u16; h u32; h u64; w s8; w s16; w s32; w s64; h b]
+     | "maxconst" -> let (c, (e, f)) = Model.maxconstZ a.(0) k in String.concat " " [h c; h e; h f]
+     | "mpz_to_ruint_into" -> p2 (Model.mpz_to_ruint_intoZ k a.(0) a.(1))
+     | "mpz_to_rint_into" -> h (Model.mpz_to_rint_intoZ k a.(0) a.(1))
+     | "ruint_to_mpz_into" -> sz (Model.ruint_to_mpz_intoZ k a.(0) a.(1))
+     | "rint_to_mpz_into" -> sz (Model.rint_to_mpz_intoZ k a.(0) a.(1))
+     | "smod_n1" -> h (Model.smod_n1Z thr k a.(0) a.(1))
+     | "sizes" -> p2 (Model.sizesZ k)
+     | "display_dec" -> String.concat "" (List.map sz (Model.display_decZ thr k a.(0)))
      | _ -> "UNKNOWN-OP")
   | _ -> "BAD-LINE")
